@@ -96,6 +96,10 @@ pub fn abs_apply(sh: &Shape, d: &mut D, op: &Op, ret: &str, cap: Option<usize>) 
         Op::FClear => { abs_items(d).clear(); Some("ok".into()) }
         Op::Item(i, o) => { let v = abs_items(d); if *i < v.len() { let e = match sh { Shape::Flex(e, _) => e, _ => panic!() }; abs_apply(e, &mut v[*i], o, ret, None) } else { Some("noitem".into()) } }
         Op::Assign(x) => { if ret == "ok" { *d = x.strip_def(); } None }
+        Op::Last(o) => match (sh, d) {
+            (Shape::UStruct(fs), D::Struct(_, l)) => abs_apply(fs.last().unwrap(), l, o, ret, None),
+            _ => panic!("abs: not a struct"),
+        },
         Op::SetField(v, i, x) => match d {
             D::Struct(f, _) => { f[*i] = x.clone(); Some("ok".into()) }
             D::Enum(k, f, _) => { if k == v { f[*i] = x.clone(); Some("ok".into()) } else { Some("novariant".into()) } }
@@ -164,8 +168,15 @@ pub fn gen_op(sh: &Shape, cur: &D, rng: &mut Rng, depth: usize) -> Op {
             }
         }
         Shape::UStruct(fs) if fs.len() >= 2 => {
-            let i = rng.below(fs.len() as u64 - 1) as usize;
-            Op::SetField(0, i, gen_sized(&fs[i], rng))
+            // a write to a sized field, or — more often — an operation on the unsized last field (`msg.tail.push(..)`)
+            let lastsh = fs.last().unwrap();
+            if rng.chance(3, 5) && matches!(lastsh, Shape::Vec(..) | Shape::Str(..) | Shape::Flex(..) | Shape::UStruct(..)) {
+                let ld = match cur { D::Struct(_, l) => (**l).clone(), _ => D::VecEmpty };
+                Op::Last(Box::new(gen_op(lastsh, &ld, rng, depth + 1)))
+            } else {
+                let i = rng.below(fs.len() as u64 - 1) as usize;
+                Op::SetField(0, i, gen_sized(&fs[i], rng))
+            }
         }
         Shape::UEnum(_, vs) => {
             // mostly the current variant; now and then another one (the accessor must then leave the value alone)
